@@ -273,6 +273,12 @@ def fresh_world():
                                     temperature=77.355, **dict(U, pressure_mode='relative', pressure_unit=None))
     w['pch4'] = pygaps.PointIsotherm(pressure=[0.05, 0.2, 0.5, 1.0, 2.0, 4.0], loading=[0.1, 0.4, 0.9, 1.5, 2.2, 2.9], material='c04-M',
                                      adsorbate='CH4', temperature=298.0, **U)
+    # a second adsorbate object with the SAME name as a shipped one but its own thermodynamic data (no backend): a laboratory's own definition
+    lab = pygaps.Adsorbate('nitrogen', saturation_pressure=97300.0, molar_mass=28.0, liquid_density=0.8, cross_sectional_area=0.162)
+    w['plab'] = pygaps.PointIsotherm(pressure=P0, loading=L0, material='c04-M', adsorbate='N2', temperature=77.355, note='lab', **U)
+    w['plab'].adsorbate = lab
+    if w['plab'].adsorbate is not lab:
+        raise core.HarnessError('the laboratory adsorbate was not attached')
     return w
 
 
@@ -409,6 +415,10 @@ def build_queries(tier):
             add(f'N2.{meth}()', lambda w, meth=meth: getattr(w['p'].adsorbate, meth)(), True)
     add('convert-free unit read: loading(volume_liquid)', lambda w: w['p'].loading(loading_basis='volume_liquid', loading_unit='cm3'), True)
     add('pressure(relative)', lambda w: w['p'].pressure(pressure_mode='relative'), True)
+    # the same queries on the isotherm whose adsorbate is another object of the same name
+    add('lab adsorbate: pressure(relative)', lambda w: w['plab'].pressure(pressure_mode='relative'), True)
+    add('lab adsorbate: loading_at(0.3 relative)', lambda w: w['plab'].loading_at(0.3, pressure_mode='relative'), True)
+    add('lab adsorbate: area_BET', lambda w: pgc.area_BET(w['plab']), True)
     # model isotherm accessors
     add('mL.loading_at', lambda w: w['mL'].loading_at([0.1, 0.4]))
     add('mL.pressure_at(kPa)', lambda w: w['mL'].pressure_at(2.0, pressure_unit='kPa'))
